@@ -29,7 +29,7 @@ TKLoader     == DataKLoader
 
 VARIABLE l
 (* the generator's variables are not used here *)
-Idle  == file = "" /\ steps = <<>> /\ leaf = NoLeaf /\ inj = {} /\ style = "fresh" /\ pos = 0 /\ form = "map"
+Idle  == file = "" /\ steps = <<>> /\ leaf = NoLeaf /\ inj = {} /\ style = "fresh" /\ pos = 0 /\ form = "map" /\ carrier = "plain"
 TInit == l = 1 /\ Idle
 TNext == l <= Len(Trace) /\ l' = l + 1 /\ UNCHANGED vars
 TSpec == TInit /\ [][TNext]_<<l, vars>>
@@ -37,8 +37,9 @@ TSpec == TInit /\ [][TNext]_<<l, vars>>
 Step == Trace[l - 1]
 DocOf(r) == [file |-> r.file,
              nodes |-> [i \in DOMAIN r.nodes |-> [at |-> r.nodes[i].at,
-                                                   keys |-> {r.nodes[i].keys[j] : j \in DOMAIN r.nodes[i].keys}]]]
-LoaderJudged(r)    == r.lclass \in {"ok", "key", "empty"}
+                                                   keys |-> {r.nodes[i].keys[j] : j \in DOMAIN r.nodes[i].keys},
+                                                   nulls |-> {r.nodes[i].nulls[j] : j \in DOMAIN r.nodes[i].nulls}]]]
+LoaderJudged(r)    == r.lclass \in {"ok", "key", "empty", "document"}
 PublishedJudged(r) == r.pclass \in {"ok", "key"}
 (* "structure": the schema rejected because of a keyword about WHICH KEYS are present together (minProperties,   *)
 (* maxProperties, required, oneOf, ...): a loaded file that does not validate for such a reason is a disagreement *)
